@@ -472,29 +472,7 @@ class StaleKeyHistories(Family):
         return 'ok', True
 
 
-def sync_inplace(tx, m):
-    """make the fields of the CMutableTransaction equal to the model by assignments on the SAME objects (lists resized in
-    place, sub-objects kept where they exist)"""
-    from bitcoin.core import CMutableTxIn, CMutableTxOut, CMutableOutPoint
-    from bitcoin.core.script import CScript
-    tx.nVersion = m['version']
-    tx.nLockTime = m['locktime']
-    while len(tx.vin) > len(m['vin']):
-        tx.vin.pop()
-    while len(tx.vin) < len(m['vin']):
-        tx.vin.append(CMutableTxIn(CMutableOutPoint(b'\x00' * 32, 0)))
-    for i, mi in enumerate(m['vin']):
-        tx.vin[i].prevout.hash = mi['hash']
-        tx.vin[i].prevout.n = mi['n']
-        tx.vin[i].scriptSig = CScript(mi['script'])
-        tx.vin[i].nSequence = mi['seq']
-    while len(tx.vout) > len(m['vout']):
-        tx.vout.pop()
-    while len(tx.vout) < len(m['vout']):
-        tx.vout.append(CMutableTxOut(0, CScript()))
-    for j, mo in enumerate(m['vout']):
-        tx.vout[j].nValue = mo['value']
-        tx.vout[j].scriptPubKey = CScript(mo['script'])
+sync_inplace = C.sync_inplace
 
 
 class InPlaceHistories(Family):
